@@ -23,7 +23,7 @@ def cancel_script(rng):
     for _ in range(rng.randrange(4, 11)):
         r = rng.random()
         if r < 0.30:
-            ops.append("%s%d:%d%s" % (rng.choice("ccv"), nid, rng.randrange(1, 7), rng.choice(["", "r", "r"])))
+            ops.append("%s%d:%d%s" % (rng.choice("ccvm"), nid, rng.randrange(1, 7), rng.choice(["", "r", "r"])))
             nid += 1
         elif r < 0.45:
             # (with SNDTIMEO -1 a plain send under back-pressure rightly waits for ever: there it is a bounded number of polls too)
@@ -39,8 +39,21 @@ def cancel_script(rng):
         tr, sndtimeo, rng.choice([1, 2, 5]), rng.choice([1, 2, 5]), sty, rty, ";".join(ops))]
 
 
+def frame_by_frame_cases():
+    """a message given to send() frame by frame whose LAST frame's future is dropped after its 1st..4th pending poll (queue full or
+    not), followed by sends that must neither be glued to it nor wait for it"""
+    out = []
+    for sty, rty, trs in PAIRS:
+        for t in trs:
+            tr = "tcp" if t == "t" else "inproc"
+            for k in (1, 2, 4):
+                out.append(["cancel tr=%s,sndtimeo=150,sndhwm=1,rcvhwm=1 %s %s fill;m0:%d;s1;R;m2:%dr;u3;R" % (tr, sty, rty, k, k)])
+                out.append(["cancel tr=%s,sndtimeo=-1,sndhwm=2,rcvhwm=2 %s %s m0:%d;c1:6r;m2:%d;v3:6r;R" % (tr, sty, rty, k, k)])
+    return out
+
+
 def gen_cancel(rng, tier):
-    return [cancel_script(rng) for _ in range(40 if tier == "quick" else 1200)]
+    return frame_by_frame_cases() + [cancel_script(rng) for _ in range(40 if tier == "quick" else 1200)]
 
 
 def cancel_oracle(case, impl):
@@ -57,7 +70,7 @@ SPEC = {
         {"comp": "stack", "gen": gen_cancel, "label": "socket-futures", "shrink": False,
          "nontrivial": lambda c, i: any(l == "cancel=ok" for l in i),
          "dist": lambda cs: {"cases": len(cs), "with_fill": sum(1 for c in cs if " fill" in c[0] or ";fill" in c[0]),
-                             "dropped_sends": sum(c[0].count(";c") + c[0].count(";v") for c in cs),
+                             "dropped_sends": sum(c[0].count(";c") + c[0].count(";v") + c[0].count(";m") for c in cs),
                              "dropped_recvs": sum(c[0].count(";d:") + c[0].count(";f:") for c in cs)}},
     ],
     "search": lambda rng, tier: [("conc", gen_rpq(rng, tier), G.rpq_oracle_cancel, False), ("stack", gen_cancel(rng, "quick") * 2, None, False)],
@@ -66,12 +79,15 @@ SPEC = {
             "by a cancelled consumer is still delivered, counters consistent (queued = channel length, no leaked reservation) at "
             "quiescence; non-trivial = at least one future was actually dropped; stack level: on real PUSH/PULL, DEALER/ROUTER, ROUTER/DEALER and "
             "DEALER/DEALER pairs over tcp and inproc with small high-water marks (the receiver reads only when the script says so), send(), "
-            "send_multipart(), recv() and recv_multipart() futures are polled 1..6 times - the peer reading or sending in between, so that "
+            "send_multipart(), recv() and recv_multipart() futures - and the future of the LAST frame of a message given to send() frame "
+            "by frame - are polled 1..6 times - the peer reading or sending in between, so that "
             "the future reaches its later await points - and then dropped; SNDTIMEO -1 / 40 / 150 ms (timeouts cancel internally); oracle: "
             "every message received is whole, none twice, what send() accepted arrives in order, what it refused does not, nothing the "
             "receiver had been given is lost, and a final exchange works",
     "assumptions": ["cancellation inside third-party futures (fibre send/recv, tokio Semaphore/Notify) is assumed safe as documented",
-                    "socket-level API futures are exercised at stack level (sampled scripts), REQ/REP state claims under dropped futures by "
+                    "the frame-by-frame send transaction of DEALER and ROUTER is modelled (M15 SendTx) and tied to the code by "
+                    "re-extracted source-shape flags and the stack scripts, not lock-step; the other socket-level API futures are "
+                    "exercised at stack level only (sampled scripts); REQ/REP state claims under dropped futures by "
                     "C10's model and scripted histories; they are not part of C09's theorems"],
 }
 
